@@ -57,14 +57,16 @@ type Builder struct {
 	Conv *model.Conv
 	SC   *spec.Converter
 
-	n          int
-	defects    int
-	stack      []openPair
-	curTD      *spec.TypeDecl // target type declaration whose fields are being generated
-	pairs      []namedPair
-	Labels     map[string]int
-	topLevel   bool
-	defectKind string
+	n               int
+	defects         int
+	stack           []openPair
+	curTD           *spec.TypeDecl  // target type declaration whose fields are being generated
+	convZeroDecided bool            // converter-level update:ignoreZeroValueField categories are fixed
+	words           map[string]bool // word type names in use
+	pairs           []namedPair
+	Labels          map[string]int
+	topLevel        bool
+	defectKind      string
 
 	Ctx       []CtxParam
 	ctxRegex  bool
@@ -727,14 +729,46 @@ func enumValue(kind string, i int) string {
 	return fmt.Sprint(i)
 }
 
-// namedStruct declares a pair of named structs; with FieldSettings it may get a declared
-// method of its own that carries field settings.
-func (b *Builder) namedStruct(depth int) (*spec.T, *spec.T) {
-	id := b.id()
+var wordPool = []string{"Address", "Item", "Node", "Entry"}
+
+// structNames names a struct pair: by id (S7 / T7), or with words the way hand-written code does
+// it - Address, Address2, Address22 - so that identifiers derived from them by appending a
+// counter can meet identifiers that end in a digit of their own.
+func (b *Builder) structNames(id int) (string, string) {
 	sn, tn := fmt.Sprintf("S%d", id), fmt.Sprintf("T%d", id)
 	if b.O.SamePkg {
 		sn, tn = fmt.Sprintf("SrcS%d", id), fmt.Sprintf("DstT%d", id)
 	}
+	if !b.chance(30, "word-type-name") {
+		return sn, tn
+	}
+	if b.words == nil {
+		b.words = map[string]bool{}
+	}
+	w := wordPool[b.draw(len(wordPool), "word")]
+	var free []string
+	for _, suf := range []string{"", "2", "3", "22"} {
+		if !b.words[w+suf] {
+			free = append(free, suf)
+		}
+	}
+	if len(free) == 0 {
+		return sn, tn
+	}
+	name := w + free[b.draw(len(free), "word-suffix")]
+	b.words[name] = true
+	b.label("naming:word-with-counter")
+	if b.O.SamePkg {
+		return "Src" + name, "Dst" + name
+	}
+	return name, name
+}
+
+// namedStruct declares a pair of named structs; with FieldSettings it may get a declared
+// method of its own that carries field settings.
+func (b *Builder) namedStruct(depth int) (*spec.T, *spec.T) {
+	id := b.id()
+	sn, tn := b.structNames(id)
 	s, t := spec.Named(b.A.Key, sn), spec.Named(b.B.Key, tn)
 	sd, td := &spec.TypeDecl{Name: sn}, &spec.TypeDecl{Name: tn}
 	b.A.Types = append(b.A.Types, sd)
@@ -999,7 +1033,7 @@ func (b *Builder) fields(depth int, own *model.Method, sd *spec.TypeDecl) ([]spe
 				variants = append(variants, "dot")
 			}
 			if b.O.Custom {
-				variants = append(variants, "mapfunc", "mapfunc", "mapfunc-nosource")
+				variants = append(variants, "mapfunc", "mapfunc", "mapfunc-nosource", "digit-siblings")
 			}
 			for _, k := range []string{"ambiguous-case", "unknown-field", "ambiguous-automap"} {
 				if b.want(k) {
@@ -1080,6 +1114,44 @@ func (b *Builder) fields(depth int, own *model.Method, sd *spec.TypeDecl) ([]spe
 			fs = append(fs, spec.F(sn, st))
 			ft = append(ft, spec.F(tn, tt))
 			own.Fields[tn] = &model.FieldCfg{Source: sn, Func: f}
+		case "digit-siblings":
+			// target fields of types W2, W, W (in this order) filled by extend functions: the locals
+			// derived from W get a counter appended and must not meet the local derived from W2
+			if b.words == nil {
+				b.words = map[string]bool{}
+			}
+			w := ""
+			for _, cand := range wordPool {
+				if !b.words[cand] && !b.words[cand+"2"] {
+					w = cand
+				}
+			}
+			if w == "" {
+				break
+			}
+			b.words[w], b.words[w+"2"] = true, true
+			b.label("naming:digit-siblings")
+			mk := func(nm string) *spec.T {
+				tn := nm
+				if b.O.SamePkg {
+					tn = "Dst" + nm
+				}
+				b.B.Types = append(b.B.Types, &spec.TypeDecl{Name: tn, U: spec.Struct(spec.F("V", spec.Basic("int")))})
+				return spec.Named(b.B.Key, tn)
+			}
+			t2, t1 := mk(w+"2"), mk(w)
+			src := spec.Basic("string")
+			for _, t := range []*spec.T{t2, t1} {
+				f := b.newFunc(src, t, true)
+				b.Conv.Extends = append(b.Conv.Extends, f)
+				b.extendDoc = append(b.extendDoc, "extend "+f.Name)
+				b.extPairs = append(b.extPairs, namedPair{src, t})
+			}
+			for _, t := range []*spec.T{t2, t1, t1} {
+				nm := name()
+				fs = append(fs, spec.F(nm, src))
+				ft = append(ft, spec.F(nm, t))
+			}
 		case "mapfunc-nosource":
 			tn := name()
 			_, tt := b.Pair(min(depth-1, 1))
@@ -1275,6 +1347,12 @@ func (b *Builder) fields(depth int, own *model.Method, sd *spec.TypeDecl) ([]spe
 				b.label("unexported-source-other-package")
 				break
 			}
+			if b.O.SamePkg && own != nil && b.chance(30, "ignore-unexported-in-own-package") {
+				// the output package may write the field, ignoreUnexported still says: leave it alone
+				b.label("field:ignore-unexported-accessible")
+				own.Settings.IgnoreUnexported = true
+				own.FieldLines++
+			}
 			if !b.O.SamePkg {
 				switch {
 				case own != nil && b.coin("unexported-how"):
@@ -1457,27 +1535,29 @@ func (o Opts) SamePkgOutput() bool { return o.SamePkg }
 // zeroCategories draws update:ignoreZeroValueField categories and places them at
 // converter or method level.
 func (b *Builder) zeroCategories(m *model.Method) {
-	bits := b.draw(8, "zero-categories") | b.ForceZeroBits
-	zb, zs, zn := bits&1 != 0, bits&2 != 0, bits&4 != 0
-	if b.coin("zero-at-method-level") {
+	// the converter-level categories are decided once, before the first method that depends on
+	// them is generated: exclusions by construction look at them while the method's types are drawn
+	if !b.convZeroDecided {
+		b.convZeroDecided = true
+		if b.coin("zero-at-converter-level") {
+			bits := b.draw(8, "conv-zero-categories") | b.ForceZeroBits
+			b.Conv.Settings.ZeroBasic, b.Conv.Settings.ZeroStruct, b.Conv.Settings.ZeroNillable = bits&1 != 0, bits&2 != 0, bits&4 != 0
+		}
+	}
+	if b.coin("zero-at-method-level") || b.ForceZeroBits != 0 {
+		bits := b.draw(8, "zero-categories") | b.ForceZeroBits
+		zb, zs, zn := bits&1 != 0, bits&2 != 0, bits&4 != 0
 		m.Settings.ZeroBasic, m.Settings.ZeroStruct, m.Settings.ZeroNillable = zb, zs, zn
 		if zb || zs || zn {
 			m.FieldLines++
 		}
-	} else {
-		b.Conv.Settings.ZeroBasic = b.Conv.Settings.ZeroBasic || zb
-		b.Conv.Settings.ZeroStruct = b.Conv.Settings.ZeroStruct || zs
-		b.Conv.Settings.ZeroNillable = b.Conv.Settings.ZeroNillable || zn
 	}
 }
 
 // structPairFor builds a named struct pair whose field settings belong to m.
 func (b *Builder) structPairFor(m *model.Method, depth int, recur bool) (*spec.T, *spec.T) {
 	id := b.id()
-	sn, tn := fmt.Sprintf("S%d", id), fmt.Sprintf("T%d", id)
-	if b.O.SamePkg {
-		sn, tn = fmt.Sprintf("SrcS%d", id), fmt.Sprintf("DstT%d", id)
-	}
+	sn, tn := b.structNames(id)
 	s, t := spec.Named(b.A.Key, sn), spec.Named(b.B.Key, tn)
 	sd, td := &spec.TypeDecl{Name: sn}, &spec.TypeDecl{Name: tn}
 	b.A.Types = append(b.A.Types, sd)
@@ -1519,7 +1599,7 @@ func (b *Builder) UpdateMethod(name string, depth int) *model.Method {
 	if b.chance(15, "update-same-type") {
 		// source and target are one struct type (a merge method)
 		b.label("update:same-type")
-		sd := &spec.TypeDecl{Name: fmt.Sprintf("U%d", b.id())}
+		sd := &spec.TypeDecl{Name: fmt.Sprintf("Merged%d", b.id())}
 		b.A.Types = append(b.A.Types, sd)
 		all, _ := b.fields(depth, nil, sd)
 		var fs []spec.Field
